@@ -586,6 +586,17 @@ func runC17(c *Ctx) {
 				json.Unmarshal(b, &cs)
 			}
 		}
+		if cs.Kind == "override" {
+			var w struct{ Input c17MetaCase }
+			var mc c17MetaCase
+			if json.Unmarshal(b, &w) == nil && w.Input.Kind != "" {
+				mc = w.Input
+			} else {
+				json.Unmarshal(b, &mc)
+			}
+			c17MetaCheck(c, mc)
+			return
+		}
 		c17Run(c, cs)
 		return
 	}
@@ -618,6 +629,7 @@ func runC17(c *Ctx) {
 		c17Run(c, c17Case{Kind: "mask", Strs: []string{c17GenStr(r)}})
 	}
 	c17RunOpts(c)
+	c17RunMeta(c)
 }
 
 func init() { runners["C17"] = runC17 }
